@@ -126,13 +126,21 @@ class Puppet(object):
         a = self.cmd('N', 'n').split()
         return int(a[0]), bool(int(a[1]))
 
-    def wait_received(self, n, timeout=15.0):
+    def wait_received(self, n, timeout=15.0, strict=True):
+        """Wait until the puppet has read n bytes (or end of input).  The clock restarts whenever more arrives.
+        strict=False: when nothing more arrives for `timeout` seconds, return the count instead of raising - how
+        much the peer received is then the observation to be judged, not a failure of the harness."""
         t0 = time.time()
+        last = -1
         while True:
             k, eof = self.nreceived()
             if k >= n or eof:
                 return k
+            if k != last:
+                last, t0 = k, time.time()
             if time.time() - t0 > timeout:
+                if not strict:
+                    return k
                 raise PeerError('peer received %d of %d bytes' % (k, n))
             time.sleep(0.003)
 
